@@ -43,13 +43,14 @@ CHECKS = {
     "C11": ("proof", "Coq proof (every time divided, frame unchanged, idempotent, result valid whenever the division is order-preserving on the graph's times) + correspondence; the binary64 cases where division is not order-preserving are known findings",
             "in_generations is proved to divide every time by the generation time and change nothing else, and to be idempotent given x/1 == x; "
             "receiver-unchanged and no shared state are checked on the implementation; the result can be invalid on binary64 when the quotient "
-            "collapses, overflows or underflows (F12a-c)."),
+            "collapses, overflows or underflows (F12a-c); in exact rational arithmetic the result is proved valid unconditionally."),
     "C12": ("proof", "Coq proof (end times, partition, pointwise agreement, row sums) + exact correspondence + pointwise check on the implementation",
             "For every graph satisfying MigsOK (implied by Valid): end times strictly decrease to 0, the intervals partition [0, inf), the matrix of the "
             "interval containing t holds exactly the rate of the migration in force at t (0.0 when none), no row exceeds one beyond the tolerance."),
     "C13": ("proof", "Coq proof about a hand-written model of Deme.size_at + bit-exact correspondence of the extracted model with the implementation",
             "Zero outside the lifetime (start exclusive, end inclusive), end size at every epoch end, unique owner epoch inside, value at infinity, "
-            "the three interpolation formulas. Between-ness inside non-constant epochs is real arithmetic and is checked on the implementation's answers."),
+            "the three interpolation formulas; between-ness for linear epochs in exact rational arithmetic. Between-ness inside exponential epochs and under "
+            "binary64 rounding is checked on the implementation's answers."),
     "C14": ("proof", "Coq proof (predecessors, successors, transpose, four-way classification) + correspondence",
             "predecessors/successors are proved to be exactly the ancestor lists and their transpose with one entry per deme; the event lists are "
             "proved to be the filters of the deme list by four mutually exclusive predicates, each split grouping all split-children of one parent."),
@@ -65,13 +66,14 @@ CHECKS = {
             "histories) and N0 values is interpreted by an executable transcription of the ms manual's backwards-time rules and compared with the graph: "
             "sizes and incoming rates at two interior points of every interval of the common refinement of both sides' boundaries (exhaustive for "
             "piecewise-exponential functions), lineage-movement matrices at every event time; Model/ToMs.v is compared bit for bit with the implementation's "
-            "event list; graphs outside the class must be refused. Theorems in coq/Props/C07.v concern the model's event list (numbering, sorting, refusal)."),
+            "event list; graphs outside the class must be refused. Theorems in coq/Props/C07.v: numbering, sorting, refusal, and against the ms semantics: "
+            "migration rates in force, which populations exist, the growth rate and the size anchor of the owning epoch, the split chain of a multi-ancestor deme (exact arithmetic)."),
     "C08": ("translation_validation", "ms semantics run on every generated command and compared with the graph from_ms returns + exact correspondence of Model/FromMs.v + Coq proofs: every returned graph is Valid; the interpreter refines the ms semantics for populations and the migration matrix; migration records are the inverse of the matrix history",
             "Generated command lines over all supported options (time coincidences, shuffled order, ignored options) are converted by the implementation; the "
             "returned graph is compared with the ms semantics of the command (sizes, rates, lineage movements), validated, and compared exactly with the model "
             "of build_graph (whose result is proved Valid); ignored options, optional names and the order of commuting same-time options are checked. "
             "Known findings F8, F9 are reported as such."),
-    "C09": ("translation_validation", "graph -> to_ms -> from_ms compared semantically with the original (coq/Spec/SemEquiv.v) + Coq theorems on the fixed-point rendering + option print/parse on the implementation",
+    "C09": ("translation_validation", "graph -> to_ms -> from_ms compared semantically with the original (coq/Spec/SemEquiv.v) + Coq theorems: round trip of migration rates (composition of the to_ms and from_ms theorems), fixed-point rendering + option print/parse on the implementation",
             "The graph returned by from_ms(to_ms(g, N0), N0, names) is compared with g in generations by the extracted semantic comparer with a tolerance "
             "derived from the ten-decimal rendering of negative growth rates; every kind of option record with awkward finite values is printed, parsed back by "
             "the library's parser and compared; the fixed-point text is compared digit for digit with coq/Model/FloatStr.v, for which the error bound and sign are proved."),
@@ -89,10 +91,11 @@ CHECKS = {
             "The two-document look-ahead loses, duplicates and reorders nothing; zero documents print nothing, one prints exactly the selected renderer's output, "
             "several documents with a non-YAML output are an error with no output, several in YAML print every document up to the first failing one. The "
             "renderers are abstract in the model; byte equality with demes.dump/dumps/dump_all/to_ms/from_ms on the loaded graphs is checked on the implementation."),
-    "C20": ("other", "deterministic executed-line counts over ten families and sizes up to 32/64 with a growth-exponent test + Coq lower bound for the subset search of simplification",
+    "C20": ("other", "deterministic executed-line counts over fourteen families and sizes up to 32/64 with a growth-exponent test, tied to a cost model proved polynomial in Coq + Coq lower bound for the subset search of simplification",
             "Step counts of every public operation are measured on the implementation and their growth exponent compared with a low-degree bound; the one "
             "super-polynomial operation (the subset search in asdict_simplified, hence str/dumps by default) is a known finding whose exponential lower bound on "
-            "rings is a theorem about Model/Simplify.v. Polynomial upper bounds for the other operations are measured, not proved."),
+            "rings is a theorem about Model/Simplify.v. For six other operations coq/Model/Steps.v counts loop iterations, coq/Proofs/StepsProofs.v proves the counts "
+            "linear or quadratic in the size of the graph, and the check requires executed lines <= K * (steps + 1) with a ratio that does not grow with the size."),
 }
 
 NOT_YET = {}
